@@ -4,6 +4,8 @@ import (
 	"context"
 	"fmt"
 	"io"
+	"os/exec"
+	"strings"
 	"sync"
 	"sync/atomic"
 )
@@ -72,5 +74,72 @@ func (r *ScriptRunner) PluginToHost(n, a string) (string, string, error) {
 	return n, a, nil
 }
 func (r *ScriptRunner) HostToPlugin(n, a string) (string, string, error) {
+	return n, a, nil
+}
+
+// ProcRunner is a custom runner.Runner around a real process: what a
+// RunnerFunc user (container runtime etc.) would write. It optionally
+// translates socket paths between two spellings of the same directory.
+type ProcRunner struct {
+	Cmd            *exec.Cmd
+	stdout, stderr io.ReadCloser
+	// HostPrefix/PluginPrefix: a unix address the plugin reports under
+	// PluginPrefix is reachable by the host under HostPrefix, and vice versa.
+	HostPrefix, PluginPrefix string
+
+	Starts, Kills atomic.Int32
+	waitOnce      sync.Once
+	waitErr       error
+}
+
+// NewProcRunner builds the runner from the cmd spec go-plugin hands to
+// RunnerFunc (its Env and Stdin are honoured) and the real binary to run.
+func NewProcRunner(spec *exec.Cmd, path string, args ...string) (*ProcRunner, error) {
+	cmd := exec.Command(path, args...)
+	cmd.Env = append([]string(nil), spec.Env...)
+	cmd.Stdin = spec.Stdin
+	so, err := cmd.StdoutPipe()
+	if err != nil {
+		return nil, err
+	}
+	se, err := cmd.StderrPipe()
+	if err != nil {
+		return nil, err
+	}
+	return &ProcRunner{Cmd: cmd, stdout: so, stderr: se}, nil
+}
+
+func (r *ProcRunner) Start(ctx context.Context) error { r.Starts.Add(1); return r.Cmd.Start() }
+func (r *ProcRunner) Wait(ctx context.Context) error {
+	r.waitOnce.Do(func() { r.waitErr = r.Cmd.Wait() })
+	return r.waitErr
+}
+func (r *ProcRunner) Kill(ctx context.Context) error {
+	r.Kills.Add(1)
+	if r.Cmd.Process != nil {
+		r.Cmd.Process.Kill()
+	}
+	return nil
+}
+func (r *ProcRunner) Stdout() io.ReadCloser { return r.stdout }
+func (r *ProcRunner) Stderr() io.ReadCloser { return r.stderr }
+func (r *ProcRunner) Name() string          { return r.Cmd.Path }
+func (r *ProcRunner) ID() string {
+	if r.Cmd.Process == nil {
+		return ""
+	}
+	return fmt.Sprint(r.Cmd.Process.Pid)
+}
+func (r *ProcRunner) Diagnose(context.Context) string { return "" }
+func (r *ProcRunner) PluginToHost(n, a string) (string, string, error) {
+	if n == "unix" && r.PluginPrefix != "" && strings.HasPrefix(a, r.PluginPrefix) {
+		return n, r.HostPrefix + a[len(r.PluginPrefix):], nil
+	}
+	return n, a, nil
+}
+func (r *ProcRunner) HostToPlugin(n, a string) (string, string, error) {
+	if n == "unix" && r.HostPrefix != "" && strings.HasPrefix(a, r.HostPrefix) {
+		return n, r.PluginPrefix + a[len(r.HostPrefix):], nil
+	}
 	return n, a, nil
 }
